@@ -32,6 +32,7 @@ def behOfJson (j : Json) : Except String Beh := do
   | "merge", 2 => pure (.merge (← a[1]!.getStr?))
   | "collOf", 3 => pure (.collOf (← a[1]!.getStr?) (← a[2]!.getNat?))
   | "fail", 2 => pure (.fail (← a[1]!.getStr?))
+  | "echo", 1 => pure .echo
   | t, _ => throw s!"beh: {t}"
 
 def kindOfJson (j : Json) : Except String Kind := do
